@@ -214,7 +214,7 @@ def specWrite (ceq : TupleRec → TupleRec → Bool) (reqOrder : Bool) (norm : T
     Except WriteErr StoreState :=
   if !o.ignoreMissing && dels.any (fun k => (stored s k).isNone) then .error .invalidDelete
   else if !o.ignoreDup && writes.any (fun w => (stored s w.key).isSome) then .error .invalidWrite
-  else if writes.any (fun w => match stored s w.key with | some e => !ceq e w | none => false) then .error .condConflict
+  else if writes.any (fun w => (stored s w.key).any (fun e => !ceq e w)) then .error .condConflict
   else
     let effDel : List TupleRec :=
       if reqOrder then dels.filterMap (fun k => stored s k)
@@ -326,44 +326,64 @@ def runStmts (cfg : SqlCfg) (now : Nat) (f : Option Fail) : Db → List Stmt →
       match failing with
       | some false => (rollback db, some .sqlError)
       | some true =>
-        match applied with
-        | .ok db' => (rollback db', some .sqlError)
-        | .error _ => (rollback db, some .sqlError)
+        match st, applied with
+        | _, .ok db' => (rollback db', some .sqlError)              -- executed, then the reply was lost
+        | .insertTuples _, .error e => (rollback db, some e)        -- the engine's own (constraint) error comes first
+        | _, .error _ => (rollback db, some .sqlError)              -- DELETE ran; its RowsAffected test is never reached
       | none =>
         match applied with
         | .error e => (rollback db, some e)
         | .ok db' => runStmts cfg now f db' rest (i + 1)
+
+/-- the changelog row of a delete is built from the request key (`SplitObject`, `ToUserParts`), without condition -/
+def keyRec (k : TupleKey) : TupleRec := { objType := k.objType, objId := k.objId, relation := k.relation, user := k.user }
 
 /-- the statement list of one write (empty batches are not sent) -/
 def sqlStmts (delKeys : List TupleKey) (rows : List TupleRec) : List Stmt :=
   (if delKeys.isEmpty then [] else [Stmt.deleteTuples delKeys])
   ++ (if rows.isEmpty then [] else [Stmt.insertTuples (rows.map normCond)])
   ++ (if delKeys.isEmpty && rows.isEmpty then []
-      else [Stmt.insertChangelog (delKeys.map (fun k => (({ objType := k.objType, objId := k.objId, relation := k.relation, user := k.user } : TupleRec), Op.delete))
+      else [Stmt.insertChangelog (delKeys.map (fun k => (keyRec k, Op.delete))
                                    ++ rows.map (fun w => (normCond w, Op.write)))])
   ++ [Stmt.commit]
+
+def firesAt (f : Option Fail) (i : Nat) : Bool :=
+  match f with
+  | some fl => fl.idx == i
+  | none => false
+
+/-- the deferred `txn.Rollback()` -/
+def txRollback (cfg : SqlCfg) (d : Db) : Db := if cfg.rollbackDeferred then { d with pending := none } else d
 
 /-- `Datastore.write` (sqlite).  `f` = injected failure. Requests are assumed to fit one batch (≤ 100 keys). -/
 def sqlWrite (cfg : SqlCfg) (db : Db) (dels : List TupleKey) (writes : List TupleRec) (o : WriteOpts) (now : Nat)
     (f : Option Fail) : Db × Option WriteErr :=
-  let fires (i : Nat) : Bool := match f with | some fl => fl.idx == i | none => false
   -- op 0: BEGIN
-  if fires 0 then (db, some .sqlError) else
+  if firesAt f 0 then (db, some .sqlError) else
   let db1 : Db := { db with pending := some db.committed }
-  let rollback (d : Db) : Db := if cfg.rollbackDeferred then { d with pending := none } else d
   let keys := (dels ++ writes.map (·.key)).eraseDups
-  if keys.isEmpty then (rollback db1, none) else
+  if keys.isEmpty then (txRollback cfg db1, none) else
   -- op 1: SELECT existing rows (reads inside or outside the transaction see the same committed rows here)
-  if fires 1 then (rollback db1, some .sqlError) else
+  if firesAt f 1 then (txRollback cfg db1, some .sqlError) else
   let existing := db.committed.tuples.filter (fun t => keys.contains t.key)
   match sqlPlanDeletes existing o dels [] with
-  | .error e => (rollback db1, some e)
+  | .error e => (txRollback cfg db1, some e)
   | .ok delKeys =>
     match sqlPlanWrites existing o writes [] with
-    | .error e => (rollback db1, some e)
+    | .error e => (txRollback cfg db1, some e)
     | .ok rows => runStmts cfg now f db1 (sqlStmts delKeys rows) 2
 
-/-- the driver-level operation trace of a write that runs to completion (what the wrapped `database/sql` driver
+/-- operation kinds of the data statements as far as they get (a statement error ends the write: deferred Rollback) -/
+def stmtTrace (now : Nat) : StoreState → List Stmt → List String
+  | _, [] => ["rollback"]
+  | tx, st :: rest =>
+    st.kind :: (match st with
+      | .commit => []
+      | _ => match execStmt now tx st with
+        | .error _ => ["rollback"]
+        | .ok tx' => stmtTrace now tx' rest)
+
+/-- the driver-level operation trace of a write without injected failure (what the wrapped `database/sql` driver
     sees): used by the correspondence -/
 def sqlTrace (db : Db) (dels : List TupleKey) (writes : List TupleRec) (o : WriteOpts) : List String :=
   let keys := (dels ++ writes.map (·.key)).eraseDups
@@ -374,7 +394,7 @@ def sqlTrace (db : Db) (dels : List TupleKey) (writes : List TupleRec) (o : Writ
   | .ok delKeys =>
     match sqlPlanWrites existing o writes [] with
     | .error _ => ["begin", "select", "rollback"]
-    | .ok rows => ["begin", "select"] ++ (sqlStmts delKeys rows).map Stmt.kind
+    | .ok rows => ["begin", "select"] ++ stmtTrace 0 db.committed (sqlStmts delKeys rows)
 
 /-! ## commands.WriteCommand (option parsing + duplicate check in front of the datastore) -/
 
@@ -387,17 +407,25 @@ def hasDupKeys : List TupleKey → Bool
   | [] => false
   | k :: ks => ks.contains k || hasDupKeys ks
 
-/-- `WriteCommand.Execute` over the memory backend; tuple validation against the model is assumed to pass -/
-def cmdWrite (dupTable missTable : List (String × Bool)) (s : StoreState) (dels : List TupleKey) (writes : List TupleRec)
-    (onDuplicate onMissing : String) (now : Nat) : StoreState × Option WriteErr :=
-  if dels.isEmpty && writes.isEmpty then (s, some .cmdEmpty)
-  else if hasDupKeys (dels ++ writes.map (·.key)) then (s, some .cmdDuplicate)
+/-- the part of `WriteCommand.Execute` in front of the datastore: `validateWriteRequest` (at least one item, no key
+    twice in deletes ++ writes; tuple validation against the model is assumed to pass), then the two option parsers -/
+def cmdFront (dupTable missTable : List (String × Bool)) (dels : List TupleKey) (writes : List TupleRec)
+    (onDuplicate onMissing : String) : Except WriteErr WriteOpts :=
+  if dels.isEmpty && writes.isEmpty then .error .cmdEmpty
+  else if hasDupKeys (dels ++ writes.map (·.key)) then .error .cmdDuplicate
   else match parseOption dupTable onDuplicate with
-    | none => (s, some .cmdBadOption)
+    | none => .error .cmdBadOption
     | some igD =>
       match parseOption missTable onMissing with
-      | none => (s, some .cmdBadOption)
-      | some igM => memWrite s dels writes { ignoreMissing := igM, ignoreDup := igD } now
+      | none => .error .cmdBadOption
+      | some igM => .ok { ignoreMissing := igM, ignoreDup := igD }
+
+/-- `WriteCommand.Execute` over the memory backend -/
+def cmdWrite (dupTable missTable : List (String × Bool)) (s : StoreState) (dels : List TupleKey) (writes : List TupleRec)
+    (onDuplicate onMissing : String) (now : Nat) : StoreState × Option WriteErr :=
+  match cmdFront dupTable missTable dels writes onDuplicate onMissing with
+  | .error e => (s, some e)
+  | .ok o => memWrite s dels writes o now
 
 /-! ## changelog reads -/
 
